@@ -41,12 +41,19 @@ def make_history(seed, i):
     calls = []
     fs = {}
     for k in range(rng.randrange(4, 10)):
-        kind = rng.choice(["modified", "modified", "notmodified", "syntax", "cancelled", "mapped-notmodified", "mapped-modified", "repeat", "mapped-external", "ext-same-url", "ext-same-url", "two-refs"])
+        kind = rng.choice(["modified", "modified", "notmodified", "syntax", "cancelled", "mapped-notmodified", "mapped-modified", "repeat", "mapped-external", "ext-same-url", "ext-same-url", "two-refs",
+                           "bare-call", "bare-call", "member-call", "member-call"])
         file = rng.choice(["dir/a.js", "dir/b.js", "c.js", "/abs/d.js"])
         if kind == "repeat" and calls:
             calls.append(dict(rng.choice(calls))); continue
         if kind == "modified":
             code = (jsgen.program("%s/c16" % seed, i * 16 + k) if rng.random() < 0.5 else catalogue.program("%s/c16" % seed, i * 16 + k)) + "\nfunction zz(a,b){ return a + b; }\n"
+        elif kind in ("bare-call", "member-call"):
+            # the same method name looked up in different ways by successive calls on one rewriter (bare call, member call,
+            # literal receiver, prototype call): what one call finds must not depend on what an earlier one asked
+            nm = rng.choice([m["src"] for m in cfg["csiMethods"] if not m.get("operator")] or ["trim"])
+            code = ("function bc%d(a) { return %s(a); }\n" % (k, nm) if kind == "bare-call" else
+                    "function mc%d(a, b) { return %s; }\n" % (k, rng.choice(["a.%s(b)", "'lit'.%s(b)", "String.prototype.%s.call(a, b)", "a?.%s(b)"]) % nm))
         elif kind == "notmodified":
             code = "const k%d = 'literal_number_%d'; let t = [1,2,3].map(x => x * 2);\n" % (k, k)
         elif kind == "syntax":
